@@ -276,15 +276,15 @@ def bstDelete (cmp : K → K → Int) : Tree K V → K → Tree K V × Option V
 /-- `rotateLeft(n)`; panics when `n` or `n.right` is nil -/
 def avlRotateLeft : Tree K V → Outcome (Tree K V)
   | node a k v s _ c (node b rk rv _ _ rc d) =>
-    let n' := node a k v (1 + a.sz + b.sz) (1 + Nat.max a.ht b.ht) c b
-    .ok (node n' rk rv s (1 + Nat.max n'.ht d.ht) rc d)
+    let n' := node a k v (1 + a.sz + b.sz) (1 + max a.ht b.ht) c b
+    .ok (node n' rk rv s (1 + max n'.ht d.ht) rc d)
   | _ => .panic
 
 /-- `rotateRight(n)`; panics when `n` or `n.left` is nil -/
 def avlRotateRight : Tree K V → Outcome (Tree K V)
   | node (node a lk lv _ _ lc b) k v s _ c d =>
-    let n' := node b k v (1 + b.sz + d.sz) (1 + Nat.max b.ht d.ht) c d
-    .ok (node a lk lv s (1 + Nat.max a.ht n'.ht) lc n')
+    let n' := node b k v (1 + b.sz + d.sz) (1 + max b.ht d.ht) c d
+    .ok (node a lk lv s (1 + max a.ht n'.ht) lc n')
   | _ => .panic
 
 /-- `balanceFactor(n)`; panics on nil -/
@@ -311,7 +311,7 @@ def avlBalance (n : Tree K V) : Outcome (Tree K V) := do
 
 /-- `n.size = …; n.height = …` -/
 def avlFix (l : Tree K V) (k : K) (v : V) (c : Bool) (r : Tree K V) : Tree K V :=
-  node l k v (1 + l.sz + r.sz) (1 + Nat.max l.ht r.ht) c r
+  node l k v (1 + l.sz + r.sz) (1 + max l.ht r.ht) c r
 
 /-- `_put` -/
 def avlPut (cmp : K → K → Int) : Tree K V → K → V → Outcome (Tree K V)
